@@ -281,3 +281,158 @@ def check_sifts(rep, rule, m):
             rule.fail()
         for _ in range(cases - len(bad)):
             rule.ok()
+
+
+
+# ---------------------------------------------------------------------------------------------------------------
+def heap_walks(m):
+    """[(func, loop node, heap owner text)] for every loop that indexes a hashheap's heap array (subscript or pointer
+    walk) with a variable the loop itself advances."""
+    out = []
+    for f in m.funcs.values():
+        rel = m.rel(f.file) or ""
+        if not rel.startswith(("src/", "include/")):
+            continue
+        cx = None
+        for x in walk(f.body):
+            if x["kind"] not in ("ForStmt", "WhileStmt"):
+                continue
+            ch = kids(x)
+            body = ch[4] if x["kind"] == "ForStmt" else ch[1]
+            cx = cx or FuncCtx(m, f)
+            lvars = set()
+            for part in ch:
+                for y in walk(part):
+                    t = None
+                    if y["kind"] == "UnaryOperator" and y.get("opcode") in ("++", "--"):
+                        t = strip(kids(y)[0], casts=True)
+                    elif y["kind"] == "CompoundAssignOperator" or (y["kind"] == "BinaryOperator" and y.get("opcode") == "="):
+                        t = strip(kids(y)[0], casts=True)
+                    elif y["kind"] == "VarDecl" and part is ch[0]:
+                        lvars.add(y["name"])
+                    if t is not None and t["kind"] == "DeclRefExpr":
+                        lvars.add(t["ref"]["name"])
+            H = None
+            for y in walk(body):
+                if y["kind"] != "ArraySubscriptExpr":
+                    continue
+                base = cx.canon(kids(y)[0])
+                mm = re.fullmatch(r"(.+?)(->|\.)heap", base)
+                if mm and any(z["kind"] == "DeclRefExpr" and z["ref"]["name"] in lvars for z in walk(kids(y)[1])):
+                    H = mm.group(1) if mm.group(2) == "->" else "&" + mm.group(1)
+                    break
+            if H is None and x["kind"] == "ForStmt":
+                # pointer walk: the loop variable is a pointer initialised from &H->heap[k] or H->heap + k
+                for d in walk(ch[0]):
+                    if d["kind"] == "VarDecl" and "cmi_heap_tag" in (d.get("type") or "") and "*" in (d.get("type") or "") and kids(d):
+                        mm = re.search(r"&?\(?(\w[\w>.-]*?)(->|\.)heap\b", cx.canon(kids(d)[0]))
+                        if mm:
+                            H = mm.group(1) if mm.group(2) == "->" else "&" + mm.group(1)
+            if H is not None:
+                out.append((f, x, H.lstrip("(")))
+    return out
+
+
+def scan_range(m, f, loop, H):
+    """(first, last, step) of the slots a for-loop visits, as strings over N = heap_count ('1', 'N', 'N-1', ...), or
+    raises AnalysisBroken.  Index loops and pointer walks over the heap array."""
+    from ..engines.induct import Poly
+    cx = FuncCtx(m, f)
+    if loop["kind"] != "ForStmt":
+        raise AnalysisBroken("%s: heap scan is not a for loop" % f.name)
+    ch = kids(loop)
+    v = [d for d in walk(ch[0]) if d["kind"] == "VarDecl" and kids(d)]
+    if len(v) != 1:
+        raise AnalysisBroken("%s: heap scan without a single loop variable" % f.name)
+    v = v[0]
+    cnt_txt = ("%s->heap_count" % H) if not H.startswith("&") else None
+
+    def off(n, depth=0):
+        """slot number denoted by an index or pointer expression"""
+        n = strip(n, casts=True)
+        k = n["kind"]
+        if k == "IntegerLiteral":
+            return Poly.const(int(n["value"]))
+        c = cx.canon(n)
+        if c.endswith("heap_count") and ("heap" in c):
+            return Poly.sym("N")
+        if k == "DeclRefExpr":
+            d = cx.single_def(n["ref"]["id"])
+            if d is not None and depth < 6:
+                return off(d, depth + 1)
+            return None
+        if k == "MemberExpr" and n.get("name") == "heap":
+            return Poly()            # the array itself = slot 0
+        if k == "UnaryOperator" and n.get("opcode") == "&":
+            a = strip(kids(n)[0], casts=True)
+            if a["kind"] == "ArraySubscriptExpr":
+                b = off(kids(a)[0], depth + 1)
+                i = off(kids(a)[1], depth + 1)
+                return None if b is None or i is None else b + i
+            return None
+        if k == "BinaryOperator" and n.get("opcode") in ("+", "-"):
+            a, b = off(kids(n)[0], depth + 1), off(kids(n)[1], depth + 1)
+            if a is None or b is None:
+                return None
+            return a + b if n["opcode"] == "+" else a - b
+        return None
+
+    first = off(kids(v)[0])
+    inc = _norm(render(ch[3]))
+    step = 1 if inc in (v["name"] + "++", "++" + v["name"], v["name"] + "+=1") else \
+        -1 if inc in (v["name"] + "--", "--" + v["name"], v["name"] + "-=1") else None
+    cond = strip(ch[2], casts=True)
+    if first is None or step is None or cond["kind"] != "BinaryOperator":
+        raise AnalysisBroken("%s: heap scan '%s; %s; %s' not understood" % (f.name, render(ch[0]), render(ch[2]), render(ch[3])))
+    a, b = strip(kids(cond)[0], casts=True), strip(kids(cond)[1], casts=True)
+    op = cond["opcode"]
+    if b["kind"] == "DeclRefExpr" and b["ref"]["name"] == v["name"]:
+        a, b = b, a
+        op = {"<": ">", "<=": ">=", ">": "<", ">=": "<=", "!=": "!="}.get(op, op)
+    if not (a["kind"] == "DeclRefExpr" and a["ref"]["name"] == v["name"]):
+        raise AnalysisBroken("%s: heap scan guard %s not understood" % (f.name, render(cond)))
+    bound = off(b)
+    if bound is None:
+        raise AnalysisBroken("%s: heap scan bound %s not understood" % (f.name, render(b)))
+    one = Poly.const(1)
+    if step == 1 and op in ("<", "!="):
+        last = bound - one
+    elif step == 1 and op == "<=":
+        last = bound
+    elif step == -1 and op in (">", "!="):
+        last = bound + one
+    elif step == -1 and op == ">=":
+        last = bound
+    else:
+        raise AnalysisBroken("%s: heap scan guard %s with step %d not understood" % (f.name, render(cond), step))
+    return first, last, step
+
+
+SCAN_EXEMPT = {"heap_up", "heap_down", "hash_rehash"}
+
+
+def check_scans(rep, rule, m, only=None, skip_prints=True):
+    """Every loop that walks a heap array to find / count / collect entries visits exactly the slots 1..heap_count."""
+    from ..engines.induct import Poly
+    N, one = Poly.sym("N"), Poly.const(1)
+    n = 0
+    for f, loop, H in heap_walks(m):
+        if f.name in SCAN_EXEMPT or (skip_prints and f.name.endswith("_print")):
+            continue
+        if only is not None and f.name not in only:
+            continue
+        first, last, step = scan_range(m, f, loop, H)
+        n += 1
+        rule.instance("%s: visits slots %s .. %s of %s->heap (step %+d)" % (f.name, first.show(), last.show(), H, step))
+        rep.sample({"rule": getattr(rule, "id", "scan"), "function": f.name, "first": first.show(), "last": last.show(), "step": step})
+        ok = (step == 1 and first == one and last == N) or (step == -1 and first == N and last == one)
+        if not ok:
+            rep.finding(rule, f.name, "scan:range", "%s walks the heap of %s over slots %s .. %s (step %+d); the entries live in slots "
+                        "1 .. heap_count, so %s" % (f.name, H, first.show(), last.show(), step,
+                                                   "an entry is never looked at" if ((step == 1 and (first - one).get((), 0) > 0) or
+                                                                                     (last - N).get((), 0) < 0 or (step == -1 and (last - one).get((), 0) > 0))
+                                                   else "a slot outside the live heap is read"), where=m.rel(loc(loop)))
+            rule.fail()
+        else:
+            rule.ok()
+    return n
